@@ -202,11 +202,19 @@ Definition no_out : out := mkO [] [] 0.
 Definition out_app (a b : out) : out :=
   mkO (delivered a ++ delivered b) (written a ++ written b) (pclose a + pclose b)%nat.
 
-(* the close handler (_on_close) *)
-Definition on_close (s : st) : st * out :=
-  let w := if csent s then [] else [[136; 0]] in
-  let s' := mkS (buf s) (ps s) (crecv s) true in
-  (s', mkO [] w (if crecv s' then 1%nat else 0%nat)).
+(* the close handler (_on_close); the close frame is 0x88 + _encode_tail(b'', self._sock is None)
+   (C17_client_close_masked.patch: a client masks its close frame too) *)
+Definition on_close (s : st) : R (st * out) :=
+  let pc := if crecv s then 1%nat else 0%nat in
+  if csent s then ROk (mkS (buf s) (ps s) (crecv s) true, mkO [] [] pc)
+  else
+    match encode_tail [] (out_key (nk (ps s))) with
+    | Some tail =>
+        let p := ps s in
+        ROk (mkS (buf s) (mkP (pend p) (ptype p) (bump (nk p))) (crecv s) true,
+             mkO [] [136 :: tail] pc)
+    | None => RCrash
+    end.
 
 (* a read event on the parent's channel: _parse_messages, then the events it fired are handled *)
 Definition recv (s : st) (chunk : list N) : R (st * out) :=
@@ -217,8 +225,11 @@ Definition recv (s : st) (chunk : list N) : R (st * out) :=
     | ROk r =>
         let s1 := mkS (r_buf r) (r_ps r) (r_closed r) (csent s) in
         if r_closed r then
-          let '(s2, o2) := on_close s1 in
-          ROk (s2, mkO (r_msgs r) (r_writes r ++ written o2) (pclose o2))
+          match on_close s1 with
+          | ROk (s2, o2) => ROk (s2, mkO (r_msgs r) (r_writes r ++ written o2) (pclose o2))
+          | RCrash => RCrash
+          | RFuel => RFuel
+          end
         else ROk (s1, mkO (r_msgs r) (r_writes r) 0%nat)
     | RCrash => RCrash
     | RFuel => RFuel
@@ -245,7 +256,7 @@ Definition step (s : st) (o : op) : R (st * out) :=
   match o with
   | Recv c => recv s c
   | Send t p => send s t p
-  | Close => ROk (on_close s)
+  | Close => on_close s
   end.
 
 (* outputs per operation *)
@@ -282,7 +293,134 @@ Fixpoint recv_all (s : st) (chunks : list (list N)) : R (st * out) :=
       end
   end.
 
+(* ------------------------------------------------------------------ the opening handshake: where the bytes go *)
+
+(* end of the HTTP header block: first CRLF CRLF (HttpParser joins what it has received so far and
+   searches the whole of it).  -> (header block, bytes after it) *)
+Definition crlf2 (l : list N) : bool :=
+  match l with
+  | a :: b :: c :: d :: _ => (a =? 13) && (b =? 10) && (c =? 13) && (d =? 10)
+  | _ => false
+  end.
+Fixpoint split_head (l : list N) : option (list N * list N) :=
+  match l with
+  | [] => None
+  | c :: t =>
+      if crlf2 l then Some (firstn 4 l, skipn 4 l)
+      else match split_head t with
+           | Some (h, r) => Some (c :: h, r)
+           | None => None
+           end
+  end.
+
+(* WebSocketClient: reads go to the HTTP response parser until the 101 response's header block is complete;
+   what follows it in that read is response.body.read() and is given to the codec's constructor
+   (decoded when the codec is registered); later reads go to the codec *)
+Inductive cstate :=
+| CHandshake (acc : list N)
+| COpen (s : st).
+
+Definition cread (c : cstate) (d : list N) : R (cstate * out) :=
+  match c with
+  | CHandshake acc =>
+      match split_head (acc ++ d) with
+      | None => ROk (CHandshake (acc ++ d), no_out)
+      | Some (_, rest) =>
+          match recv init rest with
+          | ROk (s, o) => ROk (COpen s, o)
+          | RCrash => RCrash
+          | RFuel => RFuel
+          end
+      end
+  | COpen s =>
+      match recv s d with
+      | ROk (s', o) => ROk (COpen s', o)
+      | RCrash => RCrash
+      | RFuel => RFuel
+      end
+  end.
+
+Fixpoint cread_all (c : cstate) (chunks : list (list N)) : R (cstate * out) :=
+  match chunks with
+  | [] => ROk (c, no_out)
+  | d :: r =>
+      match cread c d with
+      | ROk (c1, x) =>
+          match cread_all c1 r with
+          | ROk (c2, y) => ROk (c2, out_app x y)
+          | RCrash => RCrash
+          | RFuel => RFuel
+          end
+      | RCrash => RCrash
+      | RFuel => RFuel
+      end
+  end.
+
+(* WebSocketsDispatcher: one codec per upgraded socket (_codecs); a read for a socket without codec is
+   not decoded (it belongs to the HTTP server); disconnect removes the codec *)
+Definition table := nat -> option st.
+Definition t_empty : table := fun _ => None.
+Definition t_set (t : table) (k : nat) (v : option st) : table :=
+  fun j => if Nat.eqb j k then v else t j.
+
+Inductive dop :=
+| DUpgrade (sock : nat)                 (* handshake accepted: WebSocketCodec(request.sock) registered *)
+| DRead (sock : nat) (d : list N)
+| DSend (sock : nat) (text : bool) (p : list N)
+| DClose (sock : nat)
+| DDisconnect (sock : nat).
+
+Definition dstep (t : table) (o : dop) : R (table * (nat * out)) :=
+  match o with
+  | DUpgrade k => ROk (t_set t k (Some init), (k, no_out))
+  | DDisconnect k => ROk (t_set t k None, (k, no_out))
+  | DRead k d =>
+      match t k with
+      | None => ROk (t, (k, no_out))
+      | Some s => match recv s d with
+                  | ROk (s', x) => ROk (t_set t k (Some s'), (k, x))
+                  | RCrash => RCrash | RFuel => RFuel end
+      end
+  | DSend k tx p =>
+      match t k with
+      | None => ROk (t, (k, no_out))
+      | Some s => match send s tx p with
+                  | ROk (s', x) => ROk (t_set t k (Some s'), (k, x))
+                  | RCrash => RCrash | RFuel => RFuel end
+      end
+  | DClose k =>
+      match t k with
+      | None => ROk (t, (k, no_out))
+      | Some s => match on_close s with
+                  | ROk (s', x) => ROk (t_set t k (Some s'), (k, x))
+                  | RCrash => RCrash | RFuel => RFuel end
+      end
+  end.
+
+Fixpoint drun (t : table) (ops : list dop) : R (table * list (nat * out)) :=
+  match ops with
+  | [] => ROk (t, [])
+  | o :: r =>
+      match dstep t o with
+      | ROk (t1, x) =>
+          match drun t1 r with
+          | ROk (t2, xs) => ROk (t2, x :: xs)
+          | RCrash => RCrash
+          | RFuel => RFuel
+          end
+      | RCrash => RCrash
+      | RFuel => RFuel
+      end
+  end.
+
 End Codec.
+
+(* the mask bit of a written frame *)
+Definition frame_mask_bit (w : list N) : option bool :=
+  match w with
+  | _ :: b1 :: _ => Some (b_mask b1)
+  | _ => None
+  end.
 
 (* ------------------------------------------------------------------ specification: RFC 6455 5.2 *)
 
